@@ -1017,7 +1017,11 @@ pub fn check_c13(prog: &NetProgram, faulty: &NetResult, twin: &NetResult, info: 
         return;
     }
     // healthy modules: exactly what they would have seen had the faulty modules merely fallen silent
-    let sub = |res: &NetResult, m: usize| -> Vec<(u64, Ev)> { res.trace.iter().filter(|r| r.m as usize == m).map(|r| (r.t, r.ev.clone())).collect() };
+    // (the instant of at_sim_end is the end of the whole run, which depends on what the silent twin still has scheduled:
+    // tear-down records are not part of "the messages and wake-ups a module receives")
+    let sub = |res: &NetResult, m: usize| -> Vec<(u64, Ev)> {
+        res.trace.iter().filter(|r| r.m as usize == m && !matches!(r.ev, Ev::End { .. })).map(|r| (r.t, r.ev.clone())).collect()
+    };
     let mut healthy_busy = false;
     for m in 0..nmod {
         if panic_seq[m].is_some() {
@@ -1164,7 +1168,17 @@ pub fn check_c09(prog: &NetProgram, res: &NetResult, info: &mut RunInfo) {
             let after: Vec<&&Rec> = recs.iter().filter(|r| r.seq > d.reset_seq && next_from.map_or(true, |n| r.seq <= n)).collect();
             let mut started_stages: Vec<u8> = Vec::new();
             let mut first_start: Option<u32> = None;
+            let mut seen_stage0 = false;
             for r in &after {
+                // start-up stages > 0 of the initial simulation start (time 0) are still called on a module that shut down
+                // in an earlier stage, before its restart begins with stage 0; the property speaks about handlers, tasks and
+                // timers, so this is not judged
+                if matches!(r.ev, Ev::Start { stage: 0, .. }) {
+                    seen_stage0 = true;
+                }
+                if matches!(r.ev, Ev::Start { stage, .. } if stage > 0) && !seen_stage0 && d.from_t == 0 && r.t == 0 {
+                    continue;
+                }
                 let user_code = matches!(r.ev, Ev::Recv { .. } | Ev::Beat { .. } | Ev::Task { .. } | Ev::Start { .. } | Ev::Offer { .. });
                 if matches!(r.ev, Ev::End { .. }) {
                     continue;
